@@ -656,6 +656,13 @@ pub fn listen<S: ?Sized + AsRef<str>, H: crate::ConnectionHandler + Send + Sync 
                         if !more {
                             break;
                         }
+                        if !unread.is_empty() {
+                            // the handler could not go on with what it had: give it
+                            // the bytes it handed back and the new input in one piece
+                            let n = br.buffer().len();
+                            unread.extend_from_slice(br.buffer());
+                            br.consume(n);
+                        }
                     }
                     Err(err) => {
                         match err.kind() {
